@@ -253,7 +253,7 @@ def c14(tier, seed):
 
 def c04(tier, seed):
     jobs = []
-    nm = [(1, 1), (2, 1), (2, 2), (3, 1), (3, 2), (4, 1)] if tier == 'quick' else [(1, 1), (2, 1), (2, 2), (3, 1), (3, 2), (3, 3), (4, 1), (4, 2), (4, 3), (5, 1)]
+    nm = [(1, 1), (2, 1), (2, 2), (3, 1), (3, 2), (4, 1)] if tier == 'quick' else [(1, 1), (2, 1), (2, 2), (3, 1), (3, 2), (3, 3), (4, 1), (4, 2), (5, 1)]
     for n, m in nm:
         jobs.append(J('vh_c04_table', [n, m, 0], 'Hopcroft on an arbitrary %d-state %d-letter table' % (n, m), cost=(n ** (n * m)) * 2 ** n))
     if tier == 'quick':
@@ -268,7 +268,7 @@ def c04(tier, seed):
                       'compared with Moore distinguishability; Automaton::minimize on builder-made automata of shapes %s: bisimulation of initial '
                       'states on the union automaton (language equality for strings of any length on that path), pairwise distinguishable result, '
                       'state count = Nerode index; compiled expressions are covered in C02' % (nm, built_shapes(tier)),
-            'outside': ['more states / letters']}
+            'outside': ['more states / letters (4 states x 3 letters and beyond were not explored)']}
 
 
 def RJ(harness, api, n, b, extra, sh, label, **kw):
@@ -305,8 +305,8 @@ def c01(tier, seed):
     jobs = []
     for k, sh in enumerate(shapes):
         for n in ns:
-            if tier == 'quick' and n != ns[-1] and k % 3 != seed % 3:
-                continue   # quick: the shorter length on a seed-rotated third of the shapes
+            if tier == 'quick' and n != ns[-1] and S._costs().get(S.show(sh), 0) > 120 and k % 3 != seed % 3:
+                continue   # quick: for the expensive shapes the shorter length only on a seed-rotated third
             jobs.append(RJ('vh_c01_member', 0, n, b, 0, sh, 'member %s |w|=%d' % (S.show(sh), n)))
         if k % 4 == seed % 4:
             jobs.append(RJ('vh_c01_member', 1, ns[-1] if tier == 'quick' else 2, b, 0, sh, 'member via re_* wrappers %s' % S.show(sh)))
@@ -328,7 +328,7 @@ def c03(tier, seed):
 
 def c02(tier, seed):
     shapes = regex_shapes('C02', tier, seed)
-    ns, b = ((2,), 2) if tier == 'quick' else ((1, 2, 3), 3)
+    ns, b = ((0, 2), 2) if tier == 'quick' else ((0, 1, 2, 3), 3)
     jobs = []
     for sh in shapes:
         for n in ns:
@@ -387,7 +387,7 @@ def c07(tier, seed):
         C = 'char'
         hist = [('concat', C, C), ('union', C, C), ('inter', ('star', C), ('comp', C)), ('comp', ('concat', C, 'all')),
                 ('diff', 'all', ('concat', C, 'all')), ('loop', C), ('concat', ('star', C), C), ('union', ('comp', C), C),
-                ('diff', C, ('comp', C)), ('inter', ('comp', C), ('comp', C))]
+                ('diff', C, ('comp', C)), ('inter', ('comp', C), ('comp', C)), ('inter', ('plus', 'allchar'), C)]
     else:
         hist = shapes
     steps, b = (1, 2) if tier == 'quick' else (2, 2)
@@ -411,7 +411,7 @@ def c07(tier, seed):
     for sh in (hist if tier == 'thorough' else [x for x in hist if 'comp' in S.show(x) or 'diff' in S.show(x)]):
         extra = 1 | (1 << 4) | (1 << 5) | (0 << 8) | (4 << 12)
         jobs.append(RJ('vh_c07_hashcons', 0, 1, b, extra, sh, 'hash-consing, sub-terms queried first (derivative cache order): %s' % S.show(sh), cost=60))
-    wshapes = [sh for sh in shapes if costs.get(S.show(sh), 99) <= 12.0] if tier == 'quick' else shapes
+    wshapes = [sh for sh in shapes if costs.get(S.show(sh), 99) <= 6.0] if tier == 'quick' else shapes
     for sh in wshapes:
         jobs.append(RJ('vh_c07_wrappers', 1, 1, b, 0 if tier == 'quick' else 1, sh, 'thread-local manager history: %s' % S.show(sh)))
     return regex_spec(jobs, shapes, tier, 'rebuild after histories taken from a menu of 8 operations (char, concat, union, complement, derivative, compile, emptiness, star) '
